@@ -7,20 +7,27 @@
 // Commands (one per line):
 //   U <id>                 new case
 //   T <transition>         append a program transition (index = order of definition; grammar in mctrans.hpp)
-//   Y <0|1>                style of immediate causes: 0 = maximal dependent predecessors, 1 = all dependent predecessors
+//   Y <0|1|2> [salt]       style of immediate causes: 0 = maximal dependent predecessors (what ExtensionSetCalculator builds with
+//                          get_largest_maximal_subset), 1 = all dependent predecessors, 2 = the maximal ones + the previous event
+//                          of the same actor + a pseudo-random (function of transition, predecessor and salt) choice of other
+//                          dependent predecessors: the shape of the ActorJoin {pre_event, last_event_waited} and MutexTest
+//                          {unlock event, pre_event} extensions, whose two causes may be ordered
+//   W <n>                  stop unfolding an execution at the first transition that would create event number n+1 (n <= 30)
+//   H <mask>               Unfolding::mark_finished() on these events (U -> G), as UDPOR's clean-up does; then prints Z
 //   E k1 k2 ...            unfold the execution made of these program transitions
-//   G <exh_n> <nsample> <seed> <cap>   dump: structure, relations, subsets (all 2^n if n <= exh_n, else nsample random ones plus
-//                          local configurations and their pairwise unions), configurations, iterators (at most cap sets each)
-//   J <Cmask> <Dmask>      C.compute_alternative_to(D, U) on the current unfolding (hex masks over event indices)
+//   G <exh_n> <nsample> <seed> <cap> <nalt>   dump: structure, relations, subsets (all 2^n if n <= exh_n, else nsample random ones
+//                          plus local configurations and their pairwise unions), configurations, iterators (at most cap sets
+//                          each), and for nalt configurations C alternatives to sets D of extensions of C (see J)
+//   J <k> <Cmask> <Dmask>  C.compute_alternative_to(D, U) (k < 0) or C.compute_k_partial_alternative_to(D, U, k) on the current
+//                          unfolding (hex masks over event indices)
 //   L P <m> | L K <k> <m> | L F <s1> <s2> ...     xbt enumerators on vectors 0..m-1 (powerset, k-subsets, nested for loop)
-#include "mctrans.hpp"
+#include "unf_trans.hpp"
 #include "src/mc/explo/udpor/Configuration.hpp"
 #include "src/mc/explo/udpor/EventSet.hpp"
 #include "src/mc/explo/udpor/History.hpp"
 #include "src/mc/explo/udpor/Unfolding.hpp"
 #include "src/mc/explo/udpor/UnfoldingEvent.hpp"
 #include "src/mc/explo/udpor/maximal_subsets_iterator.hpp"
-#include "src/mc/mc_config.hpp"
 #include "src/xbt/utils/iter/LazyKSubsets.hpp"
 #include "src/xbt/utils/iter/LazyPowerset.hpp"
 #include "src/xbt/utils/iter/variable_for_loop.hpp"
@@ -43,6 +50,9 @@ struct Case {
   std::vector<Mask> causes, hist; // generator-side bookkeeping (hist = strict causal history)
   std::vector<int> prog_of;
   int style = 0;
+  unsigned salt = 0;
+  unsigned maxev = 30;
+  std::vector<std::vector<int>> execs;
 };
 
 static Case* cs;
@@ -78,11 +88,43 @@ static void unfold(const std::vector<int>& exec)
       if (cs->ev[e]->get_transition()->dispatch_depends(t))
         dep |= 1u << e;
     Mask c = dep;
-    if (cs->style == 0)
+    if (cs->style != 1) {
       for (int e : seen)
         if (dep >> e & 1)
           c &= ~cs->hist[e]; // keep the maximal ones only
-    const UnfoldingEvent* h = cs->unf->discover_event(set_of(c), cs->prog[k]);
+      if (cs->style == 2) {
+        int own = -1;
+        for (int e : seen) {
+          if (not(dep >> e & 1))
+            continue;
+          if (cs->ev[e]->get_actor() == t->aid_)
+            own = e; // the last one wins: the previous event of the same actor
+          else if (((unsigned)(k * 2654435761u) ^ (unsigned)(e * 40503u) ^ cs->salt) % 3 == 0)
+            c |= 1u << e;
+        }
+        if (own >= 0)
+          c |= 1u << own;
+      }
+    }
+    if (cs->ev.size() >= cs->maxev) { // would this be a new event? ask without inserting
+      const UnfoldingEvent probe(set_of(c), cs->prog[k]);
+      bool known = false;
+      for (const auto* e : cs->ev)
+        if (*e == probe)
+          known = true;
+      if (not known)
+        return;
+    }
+    // Style 2 inserts the youngest cause first, as EventSet({pre_event_a_C, last_event_waited}) does when the joiner's previous
+    // event is causally after the exit of the joined actor (an unordered_set iterates in reverse insertion order)
+    EventSet cset;
+    if (cs->style == 2) {
+      for (int i = (int)cs->ev.size() - 1; i >= 0; i--)
+        if (c >> i & 1)
+          cset.insert(cs->ev[i]);
+    } else
+      cset = set_of(c);
+    const UnfoldingEvent* h = cs->unf->discover_event(std::move(cset), cs->prog[k]);
     auto it                 = cs->idx.find(h);
     int i;
     if (it == cs->idx.end()) {
@@ -133,7 +175,24 @@ static void dump_msi(Mask cm, const Configuration& C, Mask filter, int maxsize, 
   printf("%d %s\n", trunc, out.empty() ? "-" : out.c_str());
 }
 
-static void dump(unsigned exh_n, unsigned nsample, unsigned seed, long cap)
+// J <k> <Cmask> <Dmask>: k < 0 -> compute_alternative_to (the flag model-check/k-alternatives keeps its default, -1 = full
+// alternatives, as in the checker), else compute_k_partial_alternative_to(D, U, k)
+static void run_alt(long k, Mask cm, Mask dm)
+{
+  try {
+    Configuration C(set_of(cm));
+    EventSet D = set_of(dm);
+    auto alt   = k < 0 ? C.compute_alternative_to(D, *cs->unf) : C.compute_k_partial_alternative_to(D, *cs->unf, (size_t)k);
+    if (alt.has_value())
+      printf("J %ld %x %x %x\n", k, cm, dm, mask_of(alt->get_events()));
+    else
+      printf("J %ld %x %x none\n", k, cm, dm);
+  } catch (const std::invalid_argument& e) {
+    printf("J %ld %x %x threw %s\n", k, cm, dm, e.what());
+  }
+}
+
+static void dump(unsigned exh_n, unsigned nsample, unsigned seed, long cap, unsigned nalt)
 {
   const unsigned n = cs->ev.size();
   printf("N %s %u %zu %d\n", cs->id.c_str(), n, cs->prog.size(), cs->style);
@@ -260,13 +319,51 @@ static void dump(unsigned exh_n, unsigned nsample, unsigned seed, long cap)
     // History::get_event_diff_with on two subsets
     Mask s1 = subsets[rng() % subsets.size()], s2 = full & ~cm;
     printf(" %x %x %x %x\n", s1, mask_of(History(set_of(s1)).get_event_diff_with(C)), s2, mask_of(History(set_of(s2)).get_event_diff_with(C)));
-    if (budget > 0) {
+    // The iterator walks get_topological_ordering_of_reverse_graph(): when that lists an event twice (reported by the K line above)
+    // the iterator is not asked, its answers (or its xbt_asserts) would only repeat that defect
+    bool dup_order = false;
+    {
+      auto ro = C.get_topologically_sorted_events_of_reverse_graph();
+      std::set<const UnfoldingEvent*> uniq(ro.begin(), ro.end());
+      dup_order = uniq.size() != ro.size();
+    }
+    if (budget > 0 && not dup_order) {
       dump_msi(cm, C, ~0u, -1, cap);
       Mask filter = rng() & full;
       dump_msi(cm, C, filter, -1, cap);
       dump_msi(cm, C, ~0u, 1 + rng() % 3, cap);
-      dump_msi(cm, C, rng() & full, rng() % 3, cap);
+      dump_msi(cm, C, rng() & full, 1 + rng() % 3, cap); // a limit of 0 is refused by an xbt_assert of the iterator: not asked
       budget -= 4;
+    }
+  }
+  // alternatives: C a configuration, D a set of events outside C whose history is inside C (what UDPOR's D is made of)
+  {
+    std::vector<Mask> cands = configs;
+    std::shuffle(cands.begin(), cands.end(), rng);
+    unsigned done = 0;
+    for (Mask cm : cands) {
+      if (done >= nalt)
+        break;
+      Mask ext = 0;
+      for (unsigned i = 0; i < n; i++)
+        if (not(cm >> i & 1) && (cs->hist[i] & ~cm) == 0)
+          ext |= 1u << i;
+      if (ext == 0)
+        continue;
+      done++;
+      for (int rep = 0; rep < 3; rep++) {
+        Mask dm = 0;
+        const unsigned want = 1 + rng() % 3;
+        for (unsigned tries = 0; tries < 20 && (unsigned)__builtin_popcount(dm) < want; tries++) {
+          unsigned i = rng() % n;
+          if (ext >> i & 1)
+            dm |= 1u << i;
+        }
+        if (dm == 0)
+          continue;
+        run_alt(-1, cm, dm);
+        run_alt(1 + rng() % 2, cm, dm);
+      }
     }
   }
   // EventSet algebra on pairs of subsets
@@ -336,6 +433,8 @@ int main()
       cs->prog.emplace_back(vt::parse(is));
     } else if (c == "Y") {
       cs->style = vt::rd(is);
+      if (not(is >> cs->salt))
+        cs->salt = 0;
     } else if (c == "E") {
       std::vector<int> ex;
       int k;
@@ -345,21 +444,20 @@ int main()
     } else if (c == "G") {
       unsigned exh = vt::rd(is), ns = vt::rd(is), seed = vt::rd(is);
       long cap     = vt::rd(is);
-      dump(exh, ns, seed, cap);
+      unsigned nalt = vt::rd(is);
+      dump(exh, ns, seed, cap, nalt);
     } else if (c == "J") {
+      long k = vt::rd(is);
       Mask cm, dm;
       is >> std::hex >> cm >> dm;
-      _sg_mc_k_alternatives = -1; // full alternatives
-      try {
-        Configuration C(set_of(cm));
-        auto alt = C.compute_alternative_to(set_of(dm), *cs->unf);
-        if (alt.has_value())
-          printf("J %x %x %x\n", cm, dm, mask_of(alt->get_events()));
-        else
-          printf("J %x %x none\n", cm, dm);
-      } catch (const std::invalid_argument& e) {
-        printf("J %x %x threw %s\n", cm, dm, e.what());
-      }
+      run_alt(k, cm, dm);
+    } else if (c == "W") {
+      cs->maxev = std::min(30l, vt::rd(is));
+    } else if (c == "H") {
+      Mask m;
+      is >> std::hex >> m;
+      cs->unf->mark_finished(set_of(m));
+      printf("Z %zu\n", cs->unf->size());
     } else if (c == "L") {
       std::string o;
       is >> o;
